@@ -23,23 +23,45 @@ def parseList {α : Type} (f : List String → Option α) (s : String) : Option 
     | some v, some l => some (v :: l)
     | _, _ => none) (some [])
 
-def parseArb : List String → Option Arb
-  | [k, n] => match nat? k, flag? n with
-    | some k, some n => some ⟨k, n⟩
-    | _, _ => none
-  | _ => none
-
 def parseVote : List String → Option Vote
   | [s, a, h, g] => match nat? s, flag? a, flag? h, flag? g with
     | some s, some a, some h, some g => some ⟨s, a, h, g⟩
     | _, _, _, _ => none
   | _ => none
 
+/-- arbiter kinds of the harness: o origin, c / C CRC arbiter (C: claimed DPoS node key),
+    d / D the same but deposed (`isNormal = false`). -/
+def kind? (s : String) : Option Bool :=
+  if s = "o" || s = "c" || s = "C" then some true
+  else if s = "d" || s = "D" then some false else none
+
+def parseArb : List String → Option Arb
+  | [k, n] => match nat? k, kind? n with
+    | some k, some n => some ⟨k, n⟩
+    | _, _ => none
+  | _ => none
+
+def parseConfs : List String → Option (List Conf)
+  | [] => some []
+  | sp :: ss :: vs :: rest =>
+    match nat? sp, flag? ss, parseList parseVote vs, parseConfs rest with
+    | some sp, some ss, some vs, some l => some (⟨sp, ss, vs⟩ :: l)
+    | _, _, _, _ => none
+  | _ => none
+
+def fmtPoolStep (x : Option SanityErr × Option Nat) : String :=
+  (match x.1 with | none => "no-block" | e => fmtSanity e) ++ ":" ++
+  (match x.2 with | none => "-" | some i => toString i)
+
 def stepC25 : List String → String
   | ["maj", n, k] => match nat? n, nat? k with
       | some n, some k => s!"{majority n} {if hasMajority n k then 1 else 0}"
       | _, _ => "bad-op"
-  | ["confirm", arbs, sponsor, ssig, votes] =>
+  | "pool" :: rest => match parseConfs rest with
+      | some cs => if cs.isEmpty then "bad-op" else " ".intercalate ((poolRun none 0 cs).map fmtPoolStep)
+      | none => "bad-op"
+  -- the list of keys the node knows without them being current arbiters must not matter
+  | ["confirm", arbs, _known, sponsor, ssig, votes] =>
       match parseList parseArb arbs, nat? sponsor, flag? ssig, parseList parseVote votes with
       | some arbs, some sp, some ss, some vs =>
         let c : Conf := ⟨sp, ss, vs⟩
